@@ -21,6 +21,7 @@ func traceMain(args []string) {
 	out := fs.String("out", "", "")
 	script := fs.String("script", "", "file with CASE / OP / X lines to run instead of generating")
 	nodump := fs.Bool("nodump", false, "")
+	feed := fs.String("feed", "", "attach the change feed at the start of every generated case: comma-separated pattern tokens")
 	fs.Parse(args)
 	w := bufio.NewWriterSize(os.Stdout, 1<<20)
 	if *out != "" {
@@ -74,7 +75,14 @@ func traceMain(args []string) {
 			if i%3 == 0 {
 				n = *length
 			}
-			all = append(all, cs{id: fmt.Sprintf("%s-%d-%d", *profile, *seed, i), backend: be, steps: g.script(*profile, n)})
+			steps := g.script(*profile, n)
+			if *feed != "" {
+				steps = append([]step{{X: "FEED", Xarg: *feed}}, steps...)
+				if i%4 == 0 {
+					steps = append(steps, step{X: "BURST", Xarg: lit("burst") + ":25"})
+				}
+			}
+			all = append(all, cs{id: fmt.Sprintf("%s-%d-%d", *profile, *seed, i), backend: be, steps: steps})
 		}
 	}
 	for _, c := range all {
@@ -86,6 +94,16 @@ func traceMain(args []string) {
 				if in.dead {
 					break
 				}
+				continue
+			}
+			if s.X == "BURST" {
+				// BURST <keytok>:<n>: n LPUSH calls back to back, written as ordinary steps afterwards
+				parts := strings.SplitN(s.Xarg, ":", 2)
+				n := 20
+				if len(parts) == 2 {
+					fmt.Sscan(parts[1], &n)
+				}
+				in.feedBurst(w, parts[0], n, !*nodump)
 				continue
 			}
 			if s.X != "" {
@@ -102,6 +120,7 @@ func traceMain(args []string) {
 			if !*nodump {
 				in.dump(w)
 			}
+			in.feedFlush(w)
 			if in.dead {
 				break
 			}
